@@ -3555,28 +3555,28 @@ func UnmarshalPrefixSID(psid *api.PrefixSID) (*bgp.PathAttributePrefixSID, error
 	for _, raw := range psid.Tlvs {
 		switch tlv := raw.GetTlv().(type) {
 		case *api.PrefixSID_TLV_L3Service:
-			v := tlv.L3Service
-			tlvLength, tlvs, err := UnmarshalSubTLVs(v.SubTlvs)
+			// The TLV length is 1 (RESERVED) + the sub-TLVs, whatever their number: let the
+			// constructor compute it (the same native type the decoder produces).
+			_, tlvs, err := UnmarshalSubTLVs(tlv.L3Service.SubTlvs)
 			if err != nil {
 				return nil, err
 			}
-			o := &bgp.SRv6L3ServiceAttribute{
-				TLV: bgp.TLV{
-					Type:   bgp.TLVType(5),
-					Length: tlvLength,
-				},
+			o := bgp.NewSRv6ServiceTLV(bgp.TLVTypeSRv6L3Service, tlvs...)
+			s.Length += uint16(o.Len())
+			s.TLVs = append(s.TLVs, o)
+		case *api.PrefixSID_TLV_L2Service:
+			// MarshalSRv6TLVs emits this type for a native SRv6ServiceTLV of type L2 (RFC 9252 section 2)
+			_, tlvs, err := UnmarshalSubTLVs(tlv.L2Service.SubTlvs)
+			if err != nil {
+				return nil, err
 			}
-			s.Length += tlvLength
-			// Storing Sub TLVs in a Service TLV
-			o.SubTLVs = append(o.SubTLVs, tlvs...)
-			// Adding Service TLV to Path Attribute TLV slice.
+			o := bgp.NewSRv6ServiceTLV(bgp.TLVTypeSRv6L2Service, tlvs...)
+			s.Length += uint16(o.Len())
 			s.TLVs = append(s.TLVs, o)
 		default:
 			return nil, fmt.Errorf("unknown or not implemented Prefix SID type: %+v", tlv)
 		}
 	}
-	// Final Path Attribute Length is 3 bytes of the Path Attribute header longer
-	s.Length += 3
 	return s, nil
 }
 
